@@ -48,11 +48,12 @@ class Profile(dict):
     __getattr__ = dict.__getitem__
 
 
-def draw_profile(rng, prop, faults):
+def draw_profile(rng, prop, faults, tier='quick'):
     fam = rng.choice(['tiny', 'tiny', 'byte', 'byte', 'mid', 'wide'])
+    long_run = tier == 'thorough' and rng.random() < 0.25     # the thorough tier adds long histories
     p = Profile(
         prop=prop, family=fam,
-        steps=rng.randint(5, 28),
+        steps=rng.randint(29, 64) if long_run else rng.randint(5, 28),
         p_array=rng.choice([0.0, 0.3, 0.6, 0.9]),
         p_negfrac=rng.choice([0.0, 0.1, 0.3]),
         actors=rng.randint(1, 3),
@@ -669,6 +670,9 @@ class Gen(object):
             return self.g_new()
         o = self.w.slots[i].obj
         k = self.cands().index(i)
+        if 'F2' in self.p.faults and self.rng.random() < 0.04:
+            return {'op': 'call', 'slot': k, 'val': ['x', self.rng.choice(['dict', 'set'])],
+                    'via': via or self.rng.choice(['call', 'set_val'])}
         return {'op': 'call', 'slot': k, 'val': self.val_like_obj(o, kind=kind),
                 'via': via or self.rng.choice(['call', 'set_val'])}
 
